@@ -434,6 +434,8 @@ def gen_program(
             g.update({"kind": "ifelse", "when_true": a, "when_false": b, "decide": {"op": "mod", "choices": [True, False]}})
         elif style == "multi":
             choices = [[], tg[:1], tg] + ([tg[1:]] if len(tg) > 1 else [])
+            if rng.random() < 0.3:
+                choices.append(None)  # a multi-target gate may answer None: nothing is selected
             g.update({"kind": "route", "targets": tg, "multi": True, "decide": {"op": "mod", "choices": choices}})
         else:
             targets = list(tg)
